@@ -87,12 +87,6 @@ def obsMatch (m i : Obs) : Bool :=
   && (m.gets.zip i.gets).all (fun p => p.1.1 == p.2.1 && (match p.1.2, p.2.2 with
       | some a, some b => valMatch a b | none, none => true | _, _ => false))
 
-def observe (probes : List Bytes) (d : Hdrs) : Obs :=
-  { iter := CIDict.iter d
-    gets := probes.map fun k => (k, CIDict.getitem lower d k)
-    data := CIDict.asDict d
-    cmap := CIDict.caseMap d }
-
 def fmtObs (o : Obs) : String :=
   let l (xs : List String) := if xs.isEmpty then "~" else ",".intercalate xs
   s!"iter={l (o.iter.map fmtB)} get={l (o.gets.map fun p => fmtB p.1 ++ "=" ++ (match p.2 with | some v => fmtVal v | none => "!"))} data={l (o.data.map fun p => fmtB p.1 ++ "=" ++ fmtVal p.2)} cmap={l (o.cmap.map fun p => fmtB p.1 ++ "=" ++ fmtB p.2)}"
